@@ -86,6 +86,7 @@ type Obs struct {
 	Fired, FiredBeforeReturn bool
 	ReaderOps                int
 	ReaderEOFs               int
+	ReaderReads              int // ReadRune calls
 	UnreadAfterUnread        int
 	Faults                   map[string]int    // fault kind -> times fired in this run
 	SubRuns                  int               // simulated runs aggregated in this observation (0: it is one run)
